@@ -13,7 +13,11 @@ SHIM_DIR = os.path.join(vlib.BUILD, "shim")
 PAVEXC_TARGET = os.path.join(vlib.BUILD, "t-pavexc")
 SLOTS = os.path.join(vlib.BUILD, "slots")
 REAL_RUSTUP = "/root/.cargo/bin/rustup"
+# Lock file the slot workspaces start from (so that cargo resolves offline to what the registry cache holds). The one next
+# to the repository's UI tests is git-ignored there: a committed copy is the fallback.
 UI_LOCK = os.path.join(vlib.REPO, "compiler", "ui_tests", "Cargo.lock")
+if not os.path.exists(UI_LOCK):
+    UI_LOCK = os.path.join(vlib.VERIF, "e2e", "templates", "slot.Cargo.lock")
 
 
 def nightly_root():
